@@ -118,6 +118,8 @@ pub use crate::stroke::*;
 pub use crate::dash::dash_path as verif_dash_path;
 #[cfg(raqote_verif)]
 pub use crate::rasterizer::verif_curve_edge;
+#[cfg(raqote_verif)]
+pub use crate::rasterizer::verif_edges;
 
 pub use sw_composite::{Color, Gradient, GradientStop, Image, Spread};
 
